@@ -4,7 +4,7 @@ CONSTANTS
  Keys = {"A","B","C","D","E"}
  StripeOf <- DefaultStripe
  NStripes = 3
- KeySets <- AllKeySets
+ KeySets <- SmallKeySets
  Deviations = {}
  MaxHist = 0
  MaxPre = 0
